@@ -42,7 +42,9 @@ func isInSchemaRegistry(typ reflect.Type) (Schema, bool) {
 	return s, ok
 }
 
-func schemaForType(typ reflect.Type) (Schema, error) {
+// parents holds the struct types currently being expanded, so that a type that
+// contains itself is reported as an error instead of recursing forever.
+func schemaForType(typ reflect.Type, parents ...reflect.Type) (Schema, error) {
 	if s, ok := isInSchemaRegistry(typ); ok {
 		return s, nil
 	}
@@ -59,14 +61,19 @@ func schemaForType(typ reflect.Type) (Schema, error) {
 	case reflect.String:
 		return Schema{Type: "string"}, nil
 	case reflect.Struct:
-		return schemaForStruct(typ)
+		for _, parent := range parents {
+			if parent == typ {
+				return Schema{}, fmt.Errorf("type %s contains itself, which is not supported", typ)
+			}
+		}
+		return schemaForStruct(typ, append(parents, typ)...)
 	case reflect.Array, reflect.Slice:
-		return schemaForArray(typ)
+		return schemaForArray(typ, parents...)
 	case reflect.Map:
-		return schemaForMap(typ)
+		return schemaForMap(typ, parents...)
 	case reflect.Pointer:
 		// If this is a pointer to a basic type then we don't need to wrap in a union as all the basic types are nullable.
-		underlying, err := schemaForType(typ.Elem())
+		underlying, err := schemaForType(typ.Elem(), parents...)
 		if err != nil {
 			return Schema{}, fmt.Errorf("getting underlying schema for pointer: %w", err)
 		}
@@ -89,7 +96,7 @@ func nullableSchema(s Schema) Schema {
 	}
 }
 
-func schemaForStruct(typ reflect.Type) (Schema, error) {
+func schemaForStruct(typ reflect.Type, parents ...reflect.Type) (Schema, error) {
 	fields := make([]SchemaRecordField, 0, typ.NumField())
 	for i := 0; i < typ.NumField(); i++ {
 		field := typ.Field(i)
@@ -98,7 +105,7 @@ func schemaForStruct(typ reflect.Type) (Schema, error) {
 			continue
 		}
 
-		s, err := schemaForType(field.Type)
+		s, err := schemaForType(field.Type, parents...)
 		if err != nil {
 			return Schema{}, fmt.Errorf("getting schema for field %s: %w", name, err)
 		}
@@ -127,7 +134,7 @@ func schemaForStruct(typ reflect.Type) (Schema, error) {
 
 var namespaceReplacer = strings.NewReplacer("/", ".", "-", "_")
 
-func schemaForArray(typ reflect.Type) (Schema, error) {
+func schemaForArray(typ reflect.Type, parents ...reflect.Type) (Schema, error) {
 	elem := typ.Elem()
 	if elem.Kind() == reflect.Uint8 {
 		return Schema{
@@ -135,7 +142,7 @@ func schemaForArray(typ reflect.Type) (Schema, error) {
 		}, nil
 	}
 
-	s, err := schemaForType(elem)
+	s, err := schemaForType(elem, parents...)
 	if err != nil {
 		return Schema{}, fmt.Errorf("building array schema: %w", err)
 	}
@@ -148,8 +155,8 @@ func schemaForArray(typ reflect.Type) (Schema, error) {
 	}, nil
 }
 
-func schemaForMap(typ reflect.Type) (Schema, error) {
-	s, err := schemaForType(typ.Elem())
+func schemaForMap(typ reflect.Type, parents ...reflect.Type) (Schema, error) {
+	s, err := schemaForType(typ.Elem(), parents...)
 	if err != nil {
 		return Schema{}, err
 	}
